@@ -68,6 +68,50 @@ struct Cfg {
 
 const NCFG: u64 = 3 * 2 * 3 * 2 * NL;
 const MGR_CASES: u64 = 8;
+/// pair family: two life-cycle commands of different kinds issued between the same two callbacks.
+/// cases = kind(3) x shape(2) x chunk(2) x first prefix letter (none-prefix + 13)
+const PAIR_CASES: u64 = 3 * 2 * 2 * (NL + 1);
+const PAIR_BASE: u8 = 100;
+
+fn cmd_rank(l: u8) -> u8 {
+	match l {
+		1 | 2 => 0,     // pause
+		3 | 4 | 5 => 1, // resume / resume_at
+		_ => 2,         // stop
+	}
+}
+/// ordered pairs (a, b) of life-cycle letters of different kinds
+fn pairs() -> Vec<(u8, u8)> {
+	let ls = [1u8, 2, 3, 4, 5, 7, 8];
+	let mut v = vec![];
+	for a in ls {
+		for b in ls {
+			if cmd_rank(a) != cmd_rank(b) {
+				v.push((a, b));
+			}
+		}
+	}
+	v
+}
+fn letter_name(l: u8) -> String {
+	if l >= PAIR_BASE {
+		let (a, b) = pairs()[(l - PAIR_BASE) as usize];
+		format!("{{{} ; {} - no callback in between}}", LETTERS[a as usize], LETTERS[b as usize])
+	} else {
+		LETTERS[l as usize].to_string()
+	}
+}
+fn decode_pair(idx: u64) -> (Cfg, Option<u8>) {
+	let mut i = idx;
+	let pre = i % (NL + 1);
+	i /= NL + 1;
+	let chunk = [1usize, 3][(i % 2) as usize];
+	i /= 2;
+	let shape = [Shape::DcLoop, Shape::Finite6][(i % 2) as usize];
+	i /= 2;
+	let kind = [Kind::Static, Kind::Streaming, Kind::StreamingStarved][(i % 3) as usize];
+	(Cfg { kind, shape, own: OwnStart::Imm, chunk, first: 0 }, if pre == 0 { None } else { Some(pre as u8 - 1) })
+}
 
 fn decode(idx: u64) -> Cfg {
 	let mut i = idx;
@@ -105,9 +149,20 @@ impl Check for C03 {
 		Level::ModelChecking
 	}
 	fn num_cases(&self, _tier: Tier) -> u64 {
-		NCFG + MGR_CASES
+		NCFG + MGR_CASES + PAIR_CASES
 	}
 	fn describe(&self, tier: Tier, idx: u64) -> String {
+		if idx >= NCFG + MGR_CASES {
+			let (c, pre) = decode_pair(idx - NCFG - MGR_CASES);
+			return format!(
+				"pair family: {:?} sound, shape {:?}, chunk {} frames, prefix [{}{}], then every ordered pair of life-cycle commands of different kinds issued between the same two callbacks, then 4 callbacks",
+				c.kind,
+				c.shape,
+				c.chunk,
+				pre.map(|l| LETTERS[l as usize]).unwrap_or("-"),
+				tier.pick("", "; any second letter")
+			);
+		}
 		if idx >= NCFG {
 			return format!("manager pass #{}: unloading and slot reuse (capacity-1 main track), all histories to depth 4 over {{none, stop(0), stop(2s), pause(0), resume(0)}}", idx - NCFG);
 		}
@@ -123,6 +178,10 @@ impl Check for C03 {
 		)
 	}
 	fn sig_hint(&self, _tier: Tier, idx: u64) -> String {
+		if idx >= NCFG + MGR_CASES {
+			let (c, _) = decode_pair(idx - NCFG - MGR_CASES);
+			return format!("{:?} {:?} pairs", c.kind, c.shape);
+		}
 		if idx >= NCFG {
 			return "manager pass".into();
 		}
@@ -130,7 +189,7 @@ impl Check for C03 {
 		format!("{:?} {:?} {:?}", c.kind, c.shape, c.own)
 	}
 	fn rule(&self) -> String {
-		"all sequences of length <= depth over the 13-letter command alphabet (each letter followed by one callback), x {static, streaming} x {looping DC, finite 6 frames} x own start {immediate, delayed 2 s, clock} x chunk {1,3}; each history runs the real Box<dyn Sound> in lock-step with the 7-state reference machine. Model states = distinct (playback state, fade phase, start-time phase, volume phase, clock) tuples; non-trivial = histories that leave the Playing state".into()
+		"all sequences of length <= depth over the 13-letter command alphabet (each letter followed by one callback), plus the pair family (prefix of <= 1 (quick) / <= 2 (thorough) letters, then every ordered pair of pause/resume/resume_at/stop commands of different kinds with NO callback in between, then 4 callbacks; judged against both the order of issue and the fixed kind order), x {static, streaming} x {looping DC, finite 6 frames} x own start {immediate, delayed 2 s, clock} x chunk {1,3}; each history runs the real Box<dyn Sound> in lock-step with the 7-state reference machine. Model states = distinct (playback state, fade phase, start-time phase, volume phase, clock) tuples; non-trivial = histories that leave the Playing state".into()
 	}
 	fn assumptions(&self) -> Vec<String> {
 		vec![
@@ -150,6 +209,33 @@ impl Check for C03 {
 		tier.pick(40_000, 1_800_000)
 	}
 	fn run_case(&self, tier: Tier, idx: u64, ctx: &mut Ctx) {
+		if idx >= NCFG + MGR_CASES {
+			let (cfg, pre) = decode_pair(idx - NCFG - MGR_CASES);
+			if cfg.kind != Kind::Static {
+				pacer::set_mode(pacer::Mode::Pacer);
+			}
+			let mut prefixes: Vec<Vec<u8>> = vec![];
+			match pre {
+				None => prefixes.push(vec![]),
+				Some(l) => {
+					prefixes.push(vec![l]);
+					if tier == Tier::Thorough {
+						for l2 in 0..NL as u8 {
+							prefixes.push(vec![l, l2]);
+						}
+					}
+				}
+			}
+			for pfx in prefixes {
+				for pi in 0..pairs().len() as u8 {
+					let mut ls = pfx.clone();
+					ls.push(PAIR_BASE + pi);
+					ls.extend_from_slice(&[0, 0, 0, 0]);
+					run_pair_history(&cfg, &ls, ctx);
+				}
+			}
+			return;
+		}
 		if idx >= NCFG {
 			manager_pass(idx - NCFG, ctx);
 			return;
@@ -169,7 +255,7 @@ impl Check for C03 {
 fn enumerate(cfg: &Cfg, letters: &mut Vec<u8>, depth: usize, ctx: &mut Ctx) {
 	if letters.len() == depth {
 		let ls = letters.clone();
-		let r = catch(|| run_history(cfg, &ls, ctx));
+		let r = catch(|| run_history(cfg, &ls, false, ctx));
 		if let Err(p) = r {
 			ctx.fail(format!("panic: {} :: {:?}", p, cfg.kind), hist_desc(cfg, &ls));
 		}
@@ -182,6 +268,34 @@ fn enumerate(cfg: &Cfg, letters: &mut Vec<u8>, depth: usize, ctx: &mut Ctx) {
 	}
 }
 
+/// A history containing a same-interval pair is judged against both admissible references: the commands
+/// applied in the order of issue, and in kira's fixed reading order (pause, resume, stop) - the statement
+/// does not fix the order among commands of different kinds issued between the same two callbacks. Any
+/// other behaviour (a command lost, applied a callback late, applied twice) fails both.
+fn run_pair_history(cfg: &Cfg, ls: &[u8], ctx: &mut Ctx) {
+	let mut a = Ctx::default();
+	a.cur_case = ctx.cur_case;
+	if let Err(p) = catch(|| run_history(cfg, ls, false, &mut a)) {
+		a.fail(format!("panic: {} :: {:?}", p, cfg.kind), hist_desc(cfg, ls));
+	}
+	if a.total_failures() == 0 {
+		ctx.absorb(a);
+		ctx.count("pair_histories_matching_issue_order", 1);
+		return;
+	}
+	let mut b = Ctx::default();
+	b.cur_case = ctx.cur_case;
+	if let Err(p) = catch(|| run_history(cfg, ls, true, &mut b)) {
+		b.fail(format!("panic: {} :: {:?}", p, cfg.kind), hist_desc(cfg, ls));
+	}
+	if b.total_failures() == 0 {
+		ctx.absorb(b);
+		ctx.count("pair_histories_matching_fixed_kind_order_only", 1);
+	} else {
+		ctx.absorb(a);
+	}
+}
+
 fn hist_desc(cfg: &Cfg, letters: &[u8]) -> String {
 	format!(
 		"{:?} {:?} own_start={:?} chunk={} history=[{}]",
@@ -189,7 +303,7 @@ fn hist_desc(cfg: &Cfg, letters: &[u8]) -> String {
 		cfg.shape,
 		cfg.own,
 		cfg.chunk,
-		letters.iter().map(|l| LETTERS[*l as usize]).collect::<Vec<_>>().join("; ")
+		letters.iter().map(|l| letter_name(*l)).collect::<Vec<_>>().join("; ")
 	)
 }
 
@@ -233,7 +347,7 @@ fn clock_id() -> kira::clock::ClockId {
 
 const FIN_LEN: usize = 6;
 
-fn run_history(cfg: &Cfg, letters: &[u8], ctx: &mut Ctx) {
+fn run_history(cfg: &Cfg, letters: &[u8], canonical: bool, ctx: &mut Ctx) {
 	ctx.evals += 1;
 	ctx.traces += 1;
 	let sr = 1u32;
@@ -306,44 +420,75 @@ fn run_history(cfg: &Cfg, letters: &[u8], ctx: &mut Ctx) {
 	// fade law bookkeeping
 	let mut fade_cmd: Option<(f64, f64, &'static str)> = None; // (time of command, duration, target state)
 	let mut now = 0.0f64;
-	let desc = |k: usize| format!("{} at step #{} ('{}')", hist_desc(cfg, letters), k, LETTERS[letters[k] as usize]);
+	let desc = |k: usize| format!("{} at step #{} ('{}'){}", hist_desc(cfg, letters), k, letter_name(letters[k]), if canonical { " [reference: fixed kind order]" } else { "" });
 
 	for (k, &l) in letters.iter().enumerate() {
-		// ---- the letter, on both sides
+		// ---- the letter, on both sides (a pair letter: two commands, no callback in between)
+		let ops: Vec<(u8, bool, bool)> = if l >= PAIR_BASE {
+			let (a, b) = pairs()[(l - PAIR_BASE) as usize];
+			if canonical && cmd_rank(a) > cmd_rank(b) {
+				vec![(a, true, false), (b, true, true), (a, false, true)]
+			} else {
+				vec![(a, true, true), (b, true, true)]
+			}
+		} else {
+			vec![(l, true, true)]
+		};
+		for (l, dh, dm) in ops {
 		match l {
 			0 => {}
 			1 => {
-				handle.pause(tween(0.0, Easing::Linear));
-				pm.pause(0.0, Easing::Linear);
-				if pm.state != PS::Stopped {
-					fade_cmd = Some((now, 0.0, "Paused"));
+				if dh {
+					handle.pause(tween(0.0, Easing::Linear));
+				}
+				if dm {
+					pm.pause(0.0, Easing::Linear);
+					if pm.state != PS::Stopped {
+						fade_cmd = Some((now, 0.0, "Paused"));
+					}
 				}
 			}
 			2 => {
-				handle.pause(tween(2.0, Easing::Linear));
-				pm.pause(2.0, Easing::Linear);
-				if pm.state != PS::Stopped {
-					fade_cmd = Some((now, 2.0, "Paused"));
+				if dh {
+					handle.pause(tween(2.0, Easing::Linear));
+				}
+				if dm {
+					pm.pause(2.0, Easing::Linear);
+					if pm.state != PS::Stopped {
+						fade_cmd = Some((now, 2.0, "Paused"));
+					}
 				}
 			}
 			3 => {
-				handle.resume(tween(0.0, Easing::Linear));
-				pm.resume(StartM::Imm, 0.0, Easing::Linear);
-				if pm.state != PS::Stopped {
-					fade_cmd = Some((now, 0.0, "Playing"));
+				if dh {
+					handle.resume(tween(0.0, Easing::Linear));
+				}
+				if dm {
+					pm.resume(StartM::Imm, 0.0, Easing::Linear);
+					if pm.state != PS::Stopped {
+						fade_cmd = Some((now, 0.0, "Playing"));
+					}
 				}
 			}
 			4 => {
-				handle.resume(tween(3.0, Easing::Linear));
-				pm.resume(StartM::Imm, 3.0, Easing::Linear);
-				if pm.state != PS::Stopped {
-					fade_cmd = Some((now, 3.0, "Playing"));
+				if dh {
+					handle.resume(tween(3.0, Easing::Linear));
+				}
+				if dm {
+					pm.resume(StartM::Imm, 3.0, Easing::Linear);
+					if pm.state != PS::Stopped {
+						fade_cmd = Some((now, 3.0, "Playing"));
+					}
 				}
 			}
 			5 => {
-				handle.resume_at(StartTime::Delayed(Duration::from_secs(2)), tween(0.0, Easing::Linear));
-				pm.resume(StartM::Delayed(2.0), 0.0, Easing::Linear);
-				fade_cmd = None;
+				if dh {
+					handle.resume_at(StartTime::Delayed(Duration::from_secs(2)), tween(0.0, Easing::Linear));
+				}
+				if dm {
+					pm.resume(StartM::Delayed(2.0), 0.0, Easing::Linear);
+					fade_cmd = None;
+				}
 			}
 			6 => {
 				handle.resume_at(
@@ -358,17 +503,25 @@ fn run_history(cfg: &Cfg, letters: &[u8], ctx: &mut Ctx) {
 				fade_cmd = None;
 			}
 			7 => {
-				handle.stop(tween(0.0, Easing::Linear));
-				pm.stop(0.0, Easing::Linear);
-				if pm.state != PS::Stopped {
-					fade_cmd = Some((now, 0.0, "Stopped"));
+				if dh {
+					handle.stop(tween(0.0, Easing::Linear));
+				}
+				if dm {
+					pm.stop(0.0, Easing::Linear);
+					if pm.state != PS::Stopped {
+						fade_cmd = Some((now, 0.0, "Stopped"));
+					}
 				}
 			}
 			8 => {
-				handle.stop(tween(2.0, Easing::InPowi(2)));
-				pm.stop(2.0, Easing::InPowi(2));
-				if pm.state != PS::Stopped {
-					fade_cmd = Some((now, 2.0, "Stopped"));
+				if dh {
+					handle.stop(tween(2.0, Easing::InPowi(2)));
+				}
+				if dm {
+					pm.stop(2.0, Easing::InPowi(2));
+					if pm.state != PS::Stopped {
+						fade_cmd = Some((now, 2.0, "Stopped"));
+					}
 				}
 			}
 			9 => {
@@ -401,6 +554,7 @@ fn run_history(cfg: &Cfg, letters: &[u8], ctx: &mut Ctx) {
 			_ => {
 				clock.exists = false;
 			}
+		}
 		}
 		let was_stopped = pm.state == PS::Stopped;
 
@@ -507,7 +661,8 @@ fn run_history(cfg: &Cfg, letters: &[u8], ctx: &mut Ctx) {
 			break;
 		}
 		// gain laws on the DC shape, volume constant
-		if cfg.shape == Shape::DcLoop && audible && vol.prev == vol.value {
+		// (a callback that applies two life-cycle commands at once has no single fade direction)
+		if cfg.shape == Shape::DcLoop && audible && vol.prev == vol.value && letters[k] < PAIR_BASE {
 			let gains: Vec<f32> = out.iter().map(|f| f.left).collect();
 			let v = db_amp(vol.value.0) as f32;
 			match pm.state {
